@@ -43,9 +43,15 @@ def closure_of(F, b, v):
 
 
 def r2_matches(ctx, F):
+    """HasDiscoveries::matches, arm by arm. Quantified arms are read in loop normal form (A12) as a
+    truth table: for every outcome of the per-element tests (is the property a failure kind? is its
+    name among the discoveries?) one iteration either decides the result or moves on, and the
+    exhausted loop gives the default. `filter(f).any(g)`, `any(|p| f(p) && g(p))` and a `for` loop
+    with early return all have the same table."""
     rule = 'C12-R2'
-    b = F.body('has_discoveries::HasDiscoveries::matches')
-    ctx.touched(b)
+    b0 = F.body('has_discoveries::HasDiscoveries::matches')
+    ctx.touched(b0)
+    b = F.norm(b0)
     sws = [sw for sw in b.switches if sw.kind == 'variant' and noref(sw.on) == V('arg', 1)]
     if len(sws) != 1:
         raise AnchorMissing('HasDiscoveries::matches: match on self')
@@ -58,38 +64,12 @@ def r2_matches(ctx, F):
         blocks = set()
         for e in edges:
             blocks |= set(x for x in b.reach([e[1]]) if b.edges_dominate([e], x) or x == e[1])
-        calls = [c for c in b.calls if c.bb in blocks]
-        quant = [c for c in calls if c.is_('Iterator::all', 'Iterator::any')]
-        facts = {'quant': None, 'membership': False, 'filter_failure': False, 'over': None, 'len_eq': False,
-                 'nonempty': False}
-        for q in quant:
-            facts['quant'] = q.short.split('::')[-1]
-            cl = closure_of(F, b, b.val(q.args[1]))
-            if cl is not None:
-                for c in cl.calls_to('BTreeSet::contains', 'HashSet::contains'):
-                    ob_v = cl.val(c.args[0])
-                    from common import outer_val
-                    ob, ov = outer_val(F, cl, ob_v)
-                    if noref(ov) == V('arg', 2):
-                        facts['membership'] = True
-            src = b.val(q.args[0])
-            src = b.trace(src, ())
-            s2 = noref(src)
-            if s2.kind == 'call':
-                fc = b.call_at(s2.key)
-                if fc is not None and fc.is_('Iterator::filter'):
-                    fcl = closure_of(F, b, b.val(fc.args[1]))
-                    if fcl is not None and fcl.calls_to('Expectation::discovery_is_failure'):
-                        # the filter keeps failures (closure returns the predicate unnegated)
-                        c0 = fcl.calls_to('Expectation::discovery_is_failure')[0]
-                        if c0.dest['l'] == 0 and not c0.dest['p']:
-                            facts['filter_failure'] = True
-                    s2 = noref(b.val(fc.args[0]))
-                it = b.call_at(s2.key) if s2.kind == 'call' else None
-                if it is not None and it.args:
-                    base = noref(b.val(it.args[0]))
-                    facts['over'] = 'properties' if base == V('arg', 3) else \
-                        ('own-set' if base.kind == 'arg' and base.key == 1 else repr(base))
+        facts = {'loop': None, 'len_eq': False, 'nonempty': False}
+        heads = [c for c in b.calls_to('Iterator::next') if c.bb in blocks and b.in_cycle(c.bb)]
+        if len(heads) == 1:
+            facts['loop'] = loop_table(b, heads[0], blocks)
+        elif len(heads) > 1:
+            facts['loop'] = {'error': 'several loops'}
         for (bb, si, st) in b.assigns(lambda st: st['lhs']['l'] == 0 and not st['lhs']['p']):
             if bb not in blocks:
                 continue
@@ -108,9 +88,80 @@ def r2_matches(ctx, F):
                 if ca is not None and ca.short.endswith('::is_empty') and noref(b.val(ca.args[0])) == V('arg', 2):
                     facts['nonempty'] = True
         ok, why = judge_variant(v, facts)
-        ctx.check(ok, rule, 'variant-%s' % v, b,
+        ctx.check(ok, rule, 'variant-%s' % v, b0,
                   good='%s is implemented as %s' % (v, why),
                   bad='HasDiscoveries::%s does not mean what its name says: %s (found %s)' % (v, why, facts))
+
+
+def loop_table(b, head, blocks):
+    """Truth table of one quantified arm: {'over', 'failure_test', 'table': {(is_failure, discovered):
+    outcome}, 'exhausted': value}; outcome is 'next' (try the next element), True / False (the
+    arm's result), or 'mixed'."""
+    from common import iter_places
+    some, none = b.branch(head, 'Some'), b.branch(head, 'None')
+    if not some or not none:
+        return {'error': 'loop edges'}
+    # what is iterated
+    src = noref(b.trace(b.val(head.args[0]), ('IntoIterator::into_iter', 'Deref::deref')))
+    over = repr(src)
+    if src.kind == 'call':
+        it = b.call_at(src.key)
+        if it is not None and it.args:
+            base = noref(b.trace(b.val(it.args[0]), ('Deref::deref',)))
+            over = 'properties' if base == V('arg', 3) else \
+                ('own-set' if base.kind == 'arg' and base.key == 1 else repr(base))
+    # result locals: _0 and whatever is copied into it inside the arm
+    rl = {0}
+    grew = True
+    while grew:
+        grew = False
+        for (bb, si, st) in b.assigns(lambda st: not st['lhs']['p'] and st['lhs']['l'] in rl and
+                                      st['rv']['k'] == 'use' and st['rv']['op'].get('k') in ('copy', 'move') and
+                                      not st['rv']['op']['place']['p']):
+            l = st['rv']['op']['place']['l']
+            if bb in blocks and l not in rl:
+                rl.add(l)
+                grew = True
+    stores = []
+    for l in rl:
+        for (bb, si, val) in b.const_stores(l):
+            if bb in blocks:
+                stores.append((bb, bool(val)))
+
+    from taint import origins
+
+    def from_elem(op):
+        org = origins(b, op)
+        return bool(org) and all(isinstance(o, tuple) and o[0] == 'proj' and o[1] is head for o in org)
+    difs = [c for c in b.calls_to('Expectation::discovery_is_failure') if c.bb in blocks and from_elem(c.args[0])]
+    cons = [c for c in b.calls_to('BTreeSet::contains', 'HashSet::contains')
+            if c.bb in blocks and noref(b.val(c.args[0])) == V('arg', 2) and from_elem(c.args[1])]
+    if len(cons) != 1 or len(difs) > 1:
+        return {'error': 'tests', 'over': over}
+
+    def sw_of(c):
+        return b.switches_on_call(c)
+    table = {}
+    starts = [e[1] for e in some]
+    for dv in ((True, False) if difs else (None,)):
+        for cv in (True, False):
+            cons_ = [(sw_of(cons[0]), cv)]
+            if difs:
+                cons_.append((sw_of(difs[0]), dv))
+            r = b.reach_under(cons_, starts, cut_blocks=[head.bb])
+            again = head.bb in b.reach_under(cons_, starts)
+            vals = set(val for (bb, val) in stores if bb in r)
+            if again and not vals:
+                out = 'next'
+            elif not again and len(vals) == 1:
+                out = next(iter(vals))
+            else:
+                out = 'mixed'
+            table[(dv, cv)] = out
+    r = b.reach([e[1] for e in none], cut_blocks=[head.bb])
+    ex = set(val for (bb, val) in stores if bb in r)
+    return {'over': over, 'failure_test': bool(difs), 'table': table,
+            'exhausted': next(iter(ex)) if len(ex) == 1 else 'mixed'}
 
 
 def judge_variant(v, f):
@@ -118,20 +169,32 @@ def judge_variant(v, f):
     want_q = 'all' if v.startswith('All') else ('any' if v.startswith('Any') else None)
     if want_q is None:
         return True, 'unclassified variant name (no rule)'
+    lp = f['loop'] or {}
+
+    def table_is(quant, failures):
+        """any: the first element that qualifies decides `true`; all: the first that fails decides `false`"""
+        if not lp or 'table' not in lp:
+            return False
+        decide = (quant == 'any')
+        want = {}
+        for (dv, cv), out in lp['table'].items():
+            qualifies = cv if quant == 'any' else not cv
+            if failures and dv is False:
+                qualifies = False
+            want[(dv, cv)] = decide if qualifies else 'next'
+        return lp['table'] == want and lp['exhausted'] == (not decide) and bool(lp['failure_test']) == failures
     if subset:
-        ok = f['quant'] == want_q and f['membership']
         if 'Failures' in v:
-            ok = ok and f['filter_failure'] and f['over'] == 'properties'
-            return ok, ('%s over the failure properties (filter discovery_is_failure) testing '
+            ok = table_is(want_q, True) and lp.get('over') == 'properties'
+            return ok, ('%s over the failure properties (discovery_is_failure) testing '
                         'discoveries.contains(name)' % want_q)
-        ok = ok and f['over'] == 'own-set'
+        ok = table_is(want_q, False) and lp.get('over') == 'own-set'
         return ok, '%s over the given set testing discoveries.contains(name)' % want_q
     if want_q == 'all':
-        ok = f['len_eq'] or (f['quant'] == 'all' and f['membership'] and f['over'] == 'properties')
+        ok = f['len_eq'] or (table_is('all', False) and lp.get('over') == 'properties')
         return ok, 'discoveries.len() == properties.len() (or all(contains))'
-    ok = f['nonempty'] or (f['quant'] == 'any' and f['membership'])
+    ok = f['nonempty'] or table_is('any', False)
     return ok, '!discoveries.is_empty() (or any(contains))'
-
 
 def r3_tests_after_block(ctx, F):
     rule = 'C12-R3'
